@@ -81,6 +81,17 @@ class CloudModel:
             raise httpx.ConnectTimeout("scripted connect timeout", request=request)
         if fault == "connect":
             raise httpx.ConnectError("scripted connect error", request=request)
+        # timeouts of the other kinds httpx knows (all httpx.TimeoutException)
+        if fault == "write-timeout":
+            raise httpx.WriteTimeout("scripted write timeout", request=request)
+        if fault == "pool-timeout":
+            raise httpx.PoolTimeout("scripted pool timeout", request=request)
+        # the remaining families of httpx.HTTPError: transport errors other than connect, protocol errors, redirects, decoding
+        other = {"read-error": httpx.ReadError, "write-error": httpx.WriteError, "close-error": httpx.CloseError, "proxy-error": httpx.ProxyError,
+                 "remote-protocol": httpx.RemoteProtocolError, "local-protocol": httpx.LocalProtocolError,
+                 "unsupported-protocol": httpx.UnsupportedProtocol, "decoding": httpx.DecodingError, "too-many-redirects": httpx.TooManyRedirects}
+        if isinstance(fault, str) and fault in other:
+            raise other[fault](f"scripted {fault}", request=request)
         if isinstance(fault, (tuple, list)) and fault[0] == "status":
             return httpx.Response(fault[1], text="scripted", request=request)
         if isinstance(fault, (tuple, list)) and fault[0] == "api":
